@@ -62,7 +62,7 @@ def chain_sentence(rng):
         n = rng.choice(names)
         return ("t", n, tuple(rng.sample(idx, orders[n])))
 
-    n_terms = rng.choice([2, 3, 5, 8, 9, 10, 12, 16, 17, 24, 33, 40])
+    n_terms = rng.choice([2, 3, 5, 8, 9, 10, 12, 16, 17, 24, 33, 40, 64, 100, 101, 102, 129, 200, 257])
     style = rng.choice(["+", "-", "mixed", "mixed", "*"])
     if style == "*":
         e = leaf()
